@@ -81,7 +81,7 @@ def discover():
             continue
         meta = parse_attrs(m.group(1))
         meta['path'], meta['fn'] = path, fn
-        meta['gen'] = []
+        meta['flags'] = meta.get('flags', '').replace('+', ' ')
         files[fn] = meta
         marks = [(mm.start(), mm.group(1), parse_attrs(mm.group(2)))
                  for mm in re.finditer(r'^\s*// @(harness|gen) (.*)$', text, re.M)]
